@@ -389,4 +389,30 @@ if want("molden-gto"):
         except Exception as exc:
             check(g, f"[GTO] blocks for atoms {[o + 1 for o in order]}", False, repr(exc))
 
+# ---------------------------------------------------------------------------------------------- WFX gradient records
+if want("wfx-gradients"):
+    g = group("wfx-gradients", "AIMPAC WFX <Nuclear Cartesian Energy Gradients>: one record 'name gx gy gz' per nucleus, attached by name; every order of the records (all permutations, 3 nuclei) with distinct values, on the repository's own WFX fixture with the section rewritten")
+    import iodata as _iod
+
+    src = os.path.join(os.path.dirname(_iod.__file__), "test", "data", "water_sto3g_hf.wfx")
+    text = open(src).read()
+    head, rest = text.split("<Nuclear Cartesian Energy Gradients>\n")
+    body, after = rest.split("</Nuclear Cartesian Energy Gradients>")
+    names = [ln.split()[0] for ln in body.strip().splitlines()]
+    vals = {nm: [round(float(k + 1) + 0.1 * c, 3) for c in range(3)] for k, nm in enumerate(names)}
+    for order in itertools.permutations(range(len(names))):
+        recs = "".join(f"{names[k]}         {vals[names[k]][0]:.14E} {vals[names[k]][1]:.14E} {vals[names[k]][2]:.14E}\n" for k in order)
+        fn = os.path.join(tmp, "perm.wfx")
+        with open(fn, "w") as fh:
+            fh.write(head + "<Nuclear Cartesian Energy Gradients>\n" + recs + "</Nuclear Cartesian Energy Gradients>" + after)
+        desc = f"gradient records in the order {[names[k] for k in order]}"
+        try:
+            with warnings.catch_warnings():
+                warnings.simplefilter("ignore")
+                d = load_one(fn, fmt="wfx")
+            want_g = np.array([vals[nm] for nm in names])
+            check(g, desc, d.atgradient.shape == want_g.shape and np.allclose(d.atgradient, want_g, atol=1e-12), f"loaded rows {d.atgradient.tolist()} for nuclei {names}; the records say {vals}")
+        except Exception as exc:
+            check(g, desc, False, repr(exc))
+
 print(json.dumps({"groups": groups}))
